@@ -2,6 +2,9 @@ package main
 
 import (
 	"fmt"
+	"os"
+	"strconv"
+	"time"
 
 	d128 "github.com/woodsbury/decimal128"
 )
@@ -22,6 +25,53 @@ func setRes(e Ev, k string, d d128.Decimal) {
 // exec runs the call described by e against the real library and records the
 // outputs (and a recovered panic, and the shared DefaultRoundingMode after it).
 func exec(e Ev) {
+	if watchdog <= 0 {
+		execInner(e)
+		return
+	}
+	in := make(Ev, len(e)+1)
+	for k, v := range e {
+		in[k] = v
+	}
+	done := make(chan struct{})
+	go func() {
+		defer close(done)
+		execInner(e)
+	}()
+	t := time.NewTimer(watchdog)
+	select {
+	case <-done:
+		t.Stop()
+	case <-t.C:
+		// the call did not return: record it (inputs only) and stop -- the runaway goroutine cannot be cancelled
+		in["timeout"] = true
+		in["dm"] = 0
+		onTimeout(in)
+	}
+}
+
+// watchdog: a call that has not returned after this long is recorded as non-terminating (C20). Ordinary calls take
+// microseconds, the most expensive legitimate ones (100000-digit formats, 20000-bit floats) well under a second.
+var watchdog = func() time.Duration {
+	if v, err := strconv.Atoi(os.Getenv("VERIF_WATCHDOG_S")); err == nil {
+		return time.Duration(v) * time.Second
+	}
+	return 120 * time.Second
+}()
+
+// a call that does not return ends the run: it is written to the current trace (so that what was recorded is validated
+// and the call is rejected there) and the process exits with timeoutExit
+var timeoutExit = 3
+var onTimeout = func(in Ev) {
+	fmt.Fprintln(os.Stderr, "driver: call did not terminate:", in.str("op"))
+	if curWriter != nil {
+		curWriter.put(in)
+		curWriter.close()
+	}
+	os.Exit(timeoutExit)
+}
+
+func execInner(e Ev) {
 	defer func() {
 		if r := recover(); r != nil {
 			e["panic"] = fmt.Sprint(r)
